@@ -8,6 +8,7 @@ for d in $V/seeded/${1:-}*/; do
   id=$(basename $d)
   [ -f $d/patch.diff ] || continue
   chk=$(python3 -c "import json;m=json.load(open('$d/meta.json'));print(m.get('caught_by',m['breaks_property']))")
+  if [ "$chk" = "none" ]; then echo "$id: recorded miss (see meta.json), skipped"; continue; fi
   D=$(mktemp -d /tmp/sr.XXXXXX)
   git -C /repo archive HEAD | tar -x -C $D
   if ! (cd $D && (git apply --unsafe-paths --directory=$D $d/patch.diff 2>/dev/null || patch -p1 -s < $d/patch.diff >/dev/null 2>&1)); then echo "$id: PATCH DOES NOT APPLY"; bad=$((bad+1)); rm -rf $D; continue; fi
